@@ -111,7 +111,12 @@ def tree_key(S, T):
 
 def run_linop(ctx, prop, prop_file, n_quick, n_thorough, want):
     """want: set of facets in {'adj','normal','shapes','apply','applyH','applyN','reject','dot','linear','pure','dense'}"""
-    proof_ok = ctx.prove(prop_file)
+    from tools import translate_all
+    tr_err = translate_all.run(strict=False, only=["linop_table", "block"])
+    ctx.obligation("translate:sigpy/linop.py adjoint/normal table", not tr_err)
+    if tr_err:
+        ctx.notes.append("translator failed closed: %s" % tr_err)
+    proof_ok = ctx.prove(prop_file) and not tr_err
     sp = core.import_sigpy()
     rng = ctx.rng
     ctx.source_hash("sigpy/linop.py", "sigpy/util.py", "sigpy/block.py")
